@@ -127,19 +127,39 @@ Snap snapshot(const AddrMan& am, const std::string& hist, bool report, std::stri
         s.info.emplace(i, it->second);
         return i;
     };
-    for (int b = 0; b < ADDRMAN_NEW_BUCKET_COUNT; b++)
+    auto empty_row = [](const nid_type* row) { nid_type acc = -1; for (int p = 0; p < ADDRMAN_BUCKET_SIZE; p++) acc &= row[p]; return acc == -1; }; // ids are >= 0: all-ones only if every slot is -1
+    for (int b = 0; b < ADDRMAN_NEW_BUCKET_COUNT; b++) {
+        if (empty_row(im.vvNew[b])) continue;
         for (int p = 0; p < ADDRMAN_BUCKET_SIZE; p++)
             if (im.vvNew[b][p] != -1) {
                 int i = lookup(im.vvNew[b][p]);
                 if (i >= 0) s.new_slots[i]++;
                 if (slots) *slots += std::to_string(b) + "." + std::to_string(p) + "=" + std::to_string(i) + ",";
             }
-    for (int b = 0; b < ADDRMAN_TRIED_BUCKET_COUNT; b++)
+    }
+    for (int b = 0; b < ADDRMAN_TRIED_BUCKET_COUNT; b++) {
+        if (empty_row(im.vvTried[b])) continue;
         for (int p = 0; p < ADDRMAN_BUCKET_SIZE; p++)
             if (im.vvTried[b][p] != -1) {
                 int i = lookup(im.vvTried[b][p]);
                 if (i >= 0) s.tried_slots[i]++;
             }
+    }
+    return s;
+}
+
+// cheap view for bookkeeping around an operation: what the entry map says (no table scan)
+Snap quick_view(const AddrMan& am)
+{
+    Snap s;
+    AddrManImpl& im = *am.m_impl;
+    LOCK(im.cs);
+    for (auto& [id, info] : im.mapInfo) {
+        int i = uidx(info);
+        if (i < 0) continue;
+        if (info.fInTried) s.tried_slots[i] = 1;
+        else s.new_slots[i] = info.nRefCount;
+    }
     return s;
 }
 
@@ -276,7 +296,7 @@ void probe_state(AddrMan& am, const std::string& hist)
     for (int sd = 0; sd < 2; sd++)
         for (bool new_only : {false, true})
             for (auto& nets : netsets) {
-                if (sd == 1 && (new_only || !nets.empty())) continue;
+                if ((sd == 0) != (new_only == nets.empty())) continue; // each of the 6 (new_only, network set) combinations once, alternating the rng seed
                 reseed(am, SEED[sd]);
                 auto [addr, last_try] = am.Select(new_only, nets);
                 size_t cand = 0;
@@ -307,7 +327,7 @@ void probe_state(AddrMan& am, const std::string& hist)
         else {
             int c2 = check_code(*re);
             if (c2 != 0) fail("reload-checkaddrman-" + std::to_string(c2), "CheckAddrman() of the reloaded AddrMan returned " + std::to_string(c2), hist);
-            Snap r = snapshot_public(*re, hist, true);
+            Snap r = snapshot(*re, hist, true);
             if (r.new_slots != s.new_slots) fail("reload-new-table", "the reloaded new table holds different addresses or multiplicities", hist);
             if (r.tried_slots != s.tried_slots) fail("reload-tried-table", "the reloaded tried table holds different addresses", hist);
             for (auto& [i, info] : s.info) {
@@ -358,7 +378,7 @@ bool replay_impl(const std::string& hist, std::string* key, bool probe)
             // does this Add draw randomness? only if the address is already in the new table with room for another reference
             auto pos = am->FindAddressEntry(CAddress{U[o.a].svc, NODE_NONE});
             Snap before;
-            if (chk) before = snapshot(*am, hist, false);
+            if (chk) before = quick_view(*am);
             CAddress a{U[o.a].svc, NODE_NETWORK};
             a.nTime = NOW + std::chrono::seconds{o.t_off};
             bool may_draw = pos && !pos->tried && pos->multiplicity > 0 && pos->multiplicity < ADDRMAN_NEW_BUCKETS_PER_ADDRESS;
@@ -368,7 +388,7 @@ bool replay_impl(const std::string& hist, std::string* key, bool probe)
             bool r = am->Add({a}, SRC[o.src], std::chrono::seconds{o.pen});
             m.added.insert(o.a);
             if (chk) {
-                Snap after = snapshot(*am, hist, false);
+                Snap after = quick_view(*am);
                 bool stored = after.new_slots.count(o.a) || after.tried_slots.count(o.a);
                 if (r && !stored) fail("add-true-not-stored", "Add() returned true but the address is not stored", hist);
                 if (r && after.new_slots[o.a] <= (before.new_slots.count(o.a) ? before.new_slots[o.a] : 0)) fail("add-true-no-new-slot", "Add() returned true but the address did not gain a new-table slot", hist);
@@ -379,11 +399,11 @@ bool replay_impl(const std::string& hist, std::string* key, bool probe)
         }
         case GOOD: {
             Snap before;
-            if (chk) before = snapshot(*am, hist, false);
+            if (chk) before = quick_view(*am);
             bool r = am->Good(U[o.a].svc, NOW + std::chrono::seconds{o.t_off});
             m.gooded.insert(o.a);
             if (chk) {
-                Snap after = snapshot(*am, hist, false);
+                Snap after = quick_view(*am);
                 if (r && !after.tried_slots.count(o.a)) fail("good-true-not-tried", "Good() returned true but the address is not in the tried table", hist);
                 if (r && !before.new_slots.count(o.a)) fail("good-true-unknown", "Good() returned true for an address that was not in the new table", hist);
                 if (!r && before.new_slots.count(o.a) && after.new_slots.count(o.a)) g_collision_pending++;
@@ -397,10 +417,10 @@ bool replay_impl(const std::string& hist, std::string* key, bool probe)
         case RESOLVE: {
             Snap before;
             size_t pending = 0;
-            if (chk) { before = snapshot(*am, hist, false); LOCK(am->m_impl->cs); pending = am->m_impl->m_tried_collisions.size(); }
+            if (chk) { before = quick_view(*am); LOCK(am->m_impl->cs); pending = am->m_impl->m_tried_collisions.size(); }
             am->ResolveCollisions();
             if (chk) {
-                Snap after = snapshot(*am, hist, false);
+                Snap after = quick_view(*am);
                 bool replaced = false;
                 for (auto& [j, c] : before.tried_slots) if (!after.tried_slots.count(j)) { replaced = true; g_evicted_to_new += after.new_slots.count(j) ? 1 : 0; }
                 if (replaced) g_collision_replaced++;
@@ -414,7 +434,7 @@ bool replay_impl(const std::string& hist, std::string* key, bool probe)
             auto [addr, t] = am->SelectTriedCollision();
             if (chk && addr.IsValid()) {
                 g_stc_hit++;
-                Snap s = snapshot(*am, hist, false);
+                Snap s = quick_view(*am);
                 int j = uidx(addr);
                 if (j < 0 || !s.tried_slots.count(j)) fail("selecttriedcollision-not-tried", "SelectTriedCollision() returned an address that is not in the tried table", hist);
             }
@@ -620,6 +640,27 @@ int run()
         return vx::finish();
     }
 
+    if (only == 99) { // micro-benchmark of the building blocks
+        U = cfgs[0].u; OPS = cfgs[0].ops; g_cfg_name = cfgs[0].name;
+        auto tm = [&](const char* n, int reps, auto fn) { double t0 = vx::elapsed(); for (int i = 0; i < reps; i++) fn(); printf("%-28s %8.1f us\n", n, (vx::elapsed() - t0) / reps * 1e6); };
+        tm("construct+destroy", 2000, [&] { auto a = fresh(); });
+        auto am = fresh();
+        CAddress a{U[0].svc, NODE_NETWORK}; a.nTime = NOW;
+        am->Add({a}, SRC[0], 0s);
+        tm("Add existing", 2000, [&] { am->Add({a}, SRC[0], 0s); });
+        tm("FindAddressEntry", 2000, [&] { am->FindAddressEntry(a); });
+        tm("snapshot(private)", 2000, [&] { std::string sl; snapshot(*am, "", false, &sl); });
+        tm("snapshot_public", 500, [&] { snapshot_public(*am, "", false); });
+        tm("CheckAddrman", 500, [&] { check_code(*am); });
+        Model m; m.added.insert(0);
+        tm("check_state", 500, [&] { std::string sl; check_state(*am, m, "", &sl); });
+        tm("impl_key", 2000, [&] { impl_key(*am, ""); });
+        tm("reload", 200, [&] { std::string e; reload(*am, *NGM, &e); });
+        tm("probe_state", 100, [&] { probe_state(*am, ""); });
+        std::string h; h.push_back(0); h.push_back(4); h.push_back(1);
+        tm("replay depth3", 500, [&] { std::string k; replay(h, k); });
+        return 0;
+    }
     uint64_t states = 0, transitions = 0;
     bool complete = true;
     for (size_t ci = 0; ci < cfgs.size(); ci++) {
